@@ -5,6 +5,7 @@
 -/
 import EinoV.Model.C20Builder
 import EinoV.Model.C07
+import EinoV.Model.C07Types
 import EinoV.Proofs.C07
 import EinoV.Proofs.C20Ends
 import EinoV.Gen.FactsC07
@@ -46,6 +47,45 @@ theorem assignable_table (im : Impl) (ht : ImplTrans im) (A B : Ty) :
   refine ⟨fun h d hd => must_sound im ht A B h d hd, may_upstream_iface im A B, ?_⟩
   intro a b ha hb; subst ha; subst hb
   exact concrete_table im a b
+
+/-! ## eino's rule and Go's assignability (defined types, unnamed literals, channel directions) -/
+
+/-- **eino_rule_within_go.** Whatever eino's rule declares assignable for sure is assignable
+    in Go, for every description of the concrete types: the rule only ever asks for less
+    than `reflect.Type.AssignableTo`. -/
+theorem eino_rule_within_go (u : Univ) (im : Impl) (A B : Ty)
+    (h : checkAssignable im (some A) (some B) = .must) : goAssignable u im A B = true := by
+  have h' : B = A ∨ (B.isIface = true ∧ implements im A B = true) := by
+    simp only [checkAssignable] at h
+    by_cases h1 : B = A
+    · exact Or.inl h1
+    · by_cases h2 : (B.isIface && implements im A B) = true
+      · right; simpa using h2
+      · rw [if_neg h1, if_neg h2] at h
+        split at h
+        · split at h <;> simp at h
+        · simp at h
+  rcases h' with rfl | ⟨hi, hm⟩
+  · cases B <;> simp [goAssignable, goAssignableConc]
+  · cases A <;> cases B <;> simp_all [goAssignable, Ty.isIface]
+
+/-- **relaxed_rule_unsound_exactly.** The converse fails, and exactly there the rule must not
+    be relaxed: if the check answered "assignable for sure" whenever Go's `AssignableTo` holds
+    (`relaxedCheck`), then between two concrete types it would accept a connection on which
+    the receiving type assertion `v.(B)` fails – for *every* value of the upstream type – iff
+    the types are distinct and Go-assignable: a defined type against the unnamed literal with
+    the identical underlying type (either direction), or a bidirectional channel against a
+    directional one.  (With eino's own rule, `assignable_table`: `must` ⇒ the assertion
+    succeeds.) -/
+theorem relaxed_rule_unsound_exactly (u : Univ) (im : Impl) (a b : Nat) :
+    (relaxedCheck u im (some (.conc a)) (some (.conc b)) = .must ∧ dynOk im a (.conc b) = false) ↔
+    (a ≠ b ∧ goAssignableConc u a b = true) := by
+  have ht := (concrete_table im a b).1
+  simp only [relaxedCheck, goAssignable, dynOk, ht]
+  by_cases hab : a = b
+  · subst hab; simp
+  · have : (b == a) = false := by simp; exact fun h => hab h.symm
+    simp [hab, this]
 
 /-! ## what compiles is sound -/
 
@@ -198,6 +238,48 @@ theorem unpropagated_branch_order_dependent :
     let go (o : Ord) := (run f menuImpl o (Builder.new .graph .any .any none) ops).2.2.map
       (fun r => runGraph menuImpl r { body := fun _ d => d, pick := fun _ _ _ => "" } 20 1)
     go Ord.id = [.panic] ∧ go revOrd = [.typeErr] := by
+  decide
+
+/-! ## defined types over unnamed members of the menu -/
+
+/-- the connections of the harness menu (14 concrete types) that Go's rule accepts beyond
+    identity: map[string]any ↔ MyMap, []int ↔ Ints, func(int) int ↔ Fn, chan int → <-chan int
+    (and not string ↔ MyStr: both named).  The harness checks the same table against
+    reflect (oracle query "universe"). -/
+theorem menu_go_only_pairs :
+    ((List.range menuConcrete).flatMap fun a =>
+      ((List.range menuConcrete).filter fun b => a != b && goAssignableConc menuUniv a b).map fun b => (a, b))
+    = [(5, 6), (6, 5), (7, 8), (8, 7), (10, 11), (11, 10), (12, 13)] := by decide
+
+/-- eino's rule refuses such a connection wherever it is attempted: a data edge in either
+    direction, through a pass-through node typed from upstream or from downstream, as a branch
+    condition, START → END between channel directions -/
+theorem named_unnamed_rejected :
+    (run srcFacts menuImpl Ord.id (Builder.new .graph (.conc 6) (.conc 5) none)
+      [lam "b" (.conc 5) (.conc 5), edge START "b"]).2.1 = [.ok, .fresh .edgeMismatch] ∧
+    (run srcFacts menuImpl Ord.id (Builder.new .graph (.conc 5) (.conc 6) none)
+      [lam "b" (.conc 6) (.conc 6), edge START "b"]).2.1 = [.ok, .fresh .edgeMismatch] ∧
+    (run srcFacts menuImpl Ord.id (Builder.new .graph (.conc 6) (.conc 5) none)
+      [pt "p", lam "b" (.conc 5) (.conc 5), edge START "p", edge "p" "b"]).2.1
+      = [.ok, .ok, .ok, .fresh .edgeMismatch] ∧
+    (run srcFacts menuImpl Ord.id (Builder.new .graph (.conc 6) (.conc 5) none)
+      [pt "p", lam "b" (.conc 5) (.conc 5), edge "p" "b", edge START "p"]).2.1
+      = [.ok, .ok, .ok, .fresh .edgeMismatch] ∧
+    (run srcFacts menuImpl Ord.id (Builder.new .graph (.conc 6) (.conc 6) none)
+      [lam "x" (.conc 6) (.conc 6), lam "y" (.conc 6) (.conc 6), .branch START (.conc 5) ["x", "y"] false]).2.1
+      = [.ok, .ok, .fresh .branchMismatch] ∧
+    (run srcFacts menuImpl Ord.id (Builder.new .graph (.conc 12) (.conc 13) none)
+      [edge START END]).2.1 = [.fresh .edgeMismatch] := by decide
+
+/-- what the relaxed rule would let through: `relaxedCheck` answers `must` for
+    MyMap → map[string]any; the graph a(MyMap→MyMap) → b(map→map) with that edge accepted
+    (no converter: the answer was "for sure") panics in b's `input.(map[string]any)` -/
+theorem relaxed_rule_graph_panics :
+    relaxedCheck menuUniv menuImpl (some (.conc 6)) (some (.conc 5)) = .must ∧
+    (run srcFacts menuImpl Ord.id (Builder.new .graph (.conc 6) (.conc 5) none)
+      [lam "a" (.conc 6) (.conc 6), lam "b" (.conc 5) (.conc 5), edge START "a", edge "b" END, .compile copts]).2.2.map
+      (fun r => runGraph menuImpl { r with dataEdges := r.dataEdges ++ [("a", "b")] }
+        { body := fun k _ => if k = "a" then 6 else 5, pick := fun _ _ _ => END } 20 6) = [.panic] := by
   decide
 
 end EinoV.C07
